@@ -10,6 +10,17 @@ def _apply(src, m):
     cnt = src.count(old)
     if cnt == 0:
         return None
+    if cnt > 1 and m.get("near_line"):
+        # a diff hunk whose text occurs more than once: take the occurrence nearest to the hunk's line number
+        best, idx = None, -1
+        while True:
+            idx = src.find(old, idx + 1)
+            if idx < 0:
+                break
+            ln = src.count("\n", 0, idx) + 1
+            if best is None or abs(ln - m["near_line"]) < abs(best[0] - m["near_line"]):
+                best = (ln, idx)
+        return src[:best[1]] + new + src[best[1] + len(old):]
     nth = m.get("nth")
     if nth is None:
         if cnt != 1 and not m.get("all"):
@@ -21,6 +32,41 @@ def _apply(src, m):
     for _ in range(nth + 1):
         idx = src.find(old, idx + 1)
     return src[:idx] + new + src[idx + len(old):]
+
+
+def _patch_edits(patch_path):
+    """A unified diff as a list of {file, old, new} edits (one per hunk; located by text, not by line number)."""
+    edits, cur_file, old, new = [], None, None, None
+    line_no = 0
+    import re
+
+    def flush():
+        if cur_file and old is not None and (old or new):
+            edits.append({"file": cur_file, "old": "".join(old), "new": "".join(new), "near_line": line_no})
+    with open(patch_path, encoding="utf-8") as f:
+        for line in f:
+            if line.startswith("+++ "):
+                flush()
+                old = new = None
+                cur_file = line[4:].strip()
+                cur_file = cur_file[2:] if cur_file.startswith("b/") else cur_file
+            elif line.startswith(("--- ", "diff ", "index ")):
+                continue
+            elif line.startswith("@@"):
+                flush()
+                old, new = [], []
+                mm = re.match(r"@@ -(\d+)", line)
+                line_no = int(mm.group(1)) if mm else 0
+            elif old is not None:
+                if line.startswith("-"):
+                    old.append(line[1:])
+                elif line.startswith("+"):
+                    new.append(line[1:])
+                elif line.startswith(" ") or line == "\n":
+                    old.append(line[1:] if line.startswith(" ") else line)
+                    new.append(line[1:] if line.startswith(" ") else line)
+    flush()
+    return edits
 
 
 def _reformat_overlay(root):
@@ -63,7 +109,14 @@ def _one(args):
         decide(res)
         keys = [f.key for f in res.violations]
         return (m["name"], "twin-silent", "") if not keys else (m["name"], "twin-noisy", "; ".join(keys[:4]))
-    edits = m.get("edits") or [m]
+    if m.get("patch"):
+        ppath = os.path.join(os.path.dirname(os.path.dirname(os.path.dirname(os.path.abspath(__file__)))), m["patch"])
+        try:
+            edits = _patch_edits(ppath)
+        except OSError:
+            return (m["name"], "stale", "patch file missing")
+    else:
+        edits = m.get("edits") or [m]
     for e in edits:
         path = os.path.join(root, e["file"])
         try:
